@@ -12,8 +12,8 @@ claim("C15",
  "io.Reader/io.Writer/net.Conn/encoding.BinaryMarshaler are assumed contracts; binary.Read/io.ReadFull are trusted models; models.NewPointFromBytes and the field iterator behind Fields() are verified (shared with C12).",
  "DESIGN.md 3/C15")
 claim("C18",
- "Proof of the failure-atomic advertisement chain only: coordinator.Client.CopyShard (and the sibling Client RPCs) return a non-nil error on any transport/decode error or when the response carries Err. Equality of shard contents through backup/restore is NOT decided by this technique.",
- "Client.dial is an assumed contract; response decoding is abstracted (arbitrary response).",
+ "Proof of (1) the failure-atomic advertisement chain: coordinator.Client.CopyShard (and the sibling Client RPCs) return a non-nil error on any transport/decode error or when the response carries Err; (2) the block filter of a time-bounded export: for every block sequence and every window start<=end, Engine.filterFileToBackup writes a block if and only if its [min,max] intersects [start,end] (ghost flag checked at every loop iteration and at the WriteBlock call site). Equality of shard contents through the tar stream, restore, overlay and import is NOT decided by this technique.",
+ "Client.dial is an assumed contract; response decoding is abstracted (arbitrary response); BlockIterator.Read is assumed to return minTime <= maxTime; NewTSMWriter/BlockIterator are assumed to return non-nil values; file-system and tar calls are abstracted.",
  "DESIGN.md 3/C18")
 claim("C02",
  "Proof, for all sorted inputs of any length, of the kernels every read path funnels through: binary search (exact insertion point, no overflow, terminates), FindRange, Include (result is exactly the elements with min<=t<=max, in order, values aligned) and Exclude (exactly the others) for the five typed value slices of tsm1 and the six array types of tsdb/cursors; each generated copy is verified separately. The engine-level statement (cache/snapshot/file overlay under all interleavings) and Merge/Deduplicate are NOT decided; field-type conflict handling is claimed only where its obligations are listed in the evidence.",
